@@ -232,6 +232,15 @@ func rnsBad(r *ring.Ring, v uint64) (rns ring.RNSScalar) {
 	return
 }
 
+// SCALARMUL control: powers of the point formed with native multiplication
+func powBad(r *ring.Ring, p []ring.Poly, x uint64, out ring.Poly) {
+	pow := x
+	for i := 1; i < len(p); i++ {
+		r.MulScalarThenAdd(p[i], pow, out)
+		pow *= x
+	}
+}
+
 // RNDADVANCE control: the same byte serves every iteration
 func rndBad(prng sampling.PRNG, out []uint64) {
 	randomBytes := make([]byte, 8)
